@@ -74,3 +74,16 @@ Proof.
   - exists doc, lines. auto.
   - unfold ok_output in O. rewrite P in O. discriminate.
 Qed.
+
+(* wave 5: every number of rows 1..15 (hence every preamble address code of the writer's table, in its INDENT form with
+   indent 0 - see proofs/SccwBridgeFacts.v), as explicit lines and as rows produced by wrapping, in sets of one and of
+   three cues (so that the EDM EDM EOC EOC ending of a load meets a displayed caption), through BOTH models *)
+Definition n_lines (n : nat) : str := join [10] (map (fun i => lit "row " ++ dec_nonneg (Z.of_nat i) ++ lit " x") (seq 1 n)).
+Definition n_wrapped (n : nat) : str := join [32] (repeat (lit "seventeen-letters") n).
+Definition three_caps (t : str) : list wcap :=
+  [mkWcap t (10000000 # 1) (12000000 # 1); mkWcap (lit "between") (20000000 # 1) (21000000 # 1);
+   mkWcap t (30000000 # 1) (30500000 # 1)].
+Lemma roundtrip_every_row_count :
+  forallb (fun n => roundtrip_ok (one_cap (n_lines n)) && roundtrip_ok (three_caps (n_lines n))
+                    && roundtrip_ok (one_cap (n_wrapped n))) (seq 1 15) = true.
+Proof. vm_compute. reflexivity. Qed.
